@@ -71,7 +71,11 @@ def build(rng):
         expect = ('label', name)
     elif cls == 'double_cardinality':
         others = [x for x in sp.concepts if x is not c] or [c]
-        text = f'Every {c.name} can be exactly 1 wired to at most 2 {others[0].name}.'
+        # two DIFFERENT cardinalities: differing in both bounds, or sharing one bound (exactly 1 / at most 1; exactly 2 / at least 2; …)
+        first, second = rng.choice([('exactly 1', 'at most 2'), ('exactly 1', 'at most 1'), ('exactly 2', 'at least 2'),
+                                    ('between 1 and 3', 'at most 3'), ('at least 1', 'exactly 1'), ('at most 2', 'between 1 and 2'),
+                                    ('between 1 and 3', 'at least 1'), ('exactly 3', 'between 2 and 3')])
+        text = f'Every {c.name} can be {first} wired to {second} {others[0].name}.'
         uses = [['concept', c.name], ['cardinality', False]]
         expect = ('cardinality', 'multiple cardinality')
     elif cls == 'temporal_range':
